@@ -618,6 +618,73 @@ func runC19(c *eng.Ctx) {
 		a := eng.CallArgs(mk)
 		c.Check(strings.HasSuffix(p.Desc(a[1]), p.FuncKey(cb)), "callback-registered", mk, f, "that closure is the pipeline's completion callback", "registered "+p.Desc(a[1]))
 	})
+
+	// ---- 10. a failed metadata leaf does not look like a successful (partial) one -----------------------------------------------
+	c.Rule("ERRFLOW", "query.leafTaskProcessor.processMetadataSuggest{an error answer carries no result payload}", func() {
+		const respT = "github.com/lindb/lindb/proto/gen/v1/common.TaskResponse"
+		root := c.Fn("query/context.MetadataContext.handleResponse")
+		rootReadsErr := len(p.Sites(root, eng.LoadField(respT+".ErrMsg", "proto/gen/v1/common.TaskResponse.ErrMsg"))) > 0
+		f := c.Fn("query.leafTaskProcessor.processMetadataSuggest")
+		var cb *ssa.Function
+		for _, cl := range f.AnonFuncs {
+			if len(p.Sites(cl, invokeOn("", "Send"))) > 0 && len(cl.Params) == 1 {
+				cb = cl
+			}
+		}
+		if cb == nil {
+			c.Undecided("the metadata pipeline callback was not found")
+		}
+		var em, pl ssa.Value
+		var at ssa.Instruction
+		for _, b := range cb.Blocks {
+			for _, in := range b.Instrs {
+				st, ok := in.(*ssa.Store)
+				if !ok {
+					continue
+				}
+				fa, ok := st.Addr.(*ssa.FieldAddr)
+				if !ok {
+					continue
+				}
+				switch k := eng.FieldKeyOfAddr(fa); {
+				case strings.HasSuffix(k, "TaskResponse.ErrMsg"):
+					em, at = st.Val, in
+				case strings.HasSuffix(k, "TaskResponse.Payload"):
+					pl = st.Val
+				}
+			}
+		}
+		if em == nil || pl == nil {
+			c.Undecided("the response literal (ErrMsg, Payload) was not found in the callback")
+		}
+		if rootReadsErr {
+			c.Check(true, "root-reads-ErrMsg", nil, root, "the root's metadata handler looks at ErrMsg itself", "")
+			return
+		}
+		// the root's handler notices a failed leaf only through the undecodable (empty) payload: wherever ErrMsg can be non-empty
+		// the payload must be nil
+		emPhi, ok1 := em.(*ssa.Phi)
+		if !ok1 {
+			k, isC := em.(*ssa.Const)
+			c.Check(isC && k.Value != nil && k.Value.ExactString() == `""`, "errmsg-shape", at, cb, "ErrMsg is chosen per outcome", "ErrMsg = "+p.Desc(em))
+			return
+		}
+		plPhi, ok2 := pl.(*ssa.Phi)
+		if !ok2 || plPhi.Block() != emPhi.Block() {
+			c.Check(eng.IsNilConst(pl), "payload-nil-when-error", at, cb,
+				"an answer that carries an error message carries no payload: MetadataContext.handleResponse never reads ErrMsg, it reports a failed leaf only because the empty payload does not decode; with a decodable payload next to the message the failure becomes a successful partial answer",
+				"Payload = "+p.Desc(pl)+" on every path, also where ErrMsg is set")
+			return
+		}
+		for i, e := range emPhi.Edges {
+			if k, isC := e.(*ssa.Const); isC && k.Value != nil && k.Value.ExactString() == `""` {
+				continue
+			}
+			c.Check(eng.IsNilConst(plPhi.Edges[i]), fmt.Sprintf("payload-nil-when-error[%d]", i), at, cb,
+				"an answer that carries an error message carries no payload (the root's metadata handler reports a failed leaf only through the undecodable empty payload)",
+				"on the path where ErrMsg = "+p.Desc(e)+" the payload is "+p.Desc(plPhi.Edges[i]))
+		}
+	})
 }
 
 func isBoolConst(v ssa.Value, want bool) bool {
